@@ -331,7 +331,9 @@ func diffKeys(a, b []model.KV) []string {
 func checkC07(c *Ctx) {
 	const P = "C07"
 	w, sc, out := c.W, c.Sc, c.Out
-	checkChain(c, P, false) // the justification of failed conditions is C01's clause
+	// "every key stays writable with normal semantics": a refused write racing the compaction must be justified by
+	// the key's states during the request, as in C01
+	checkChain(c, P, true)
 	// ground truth: which records did compaction delete?
 	m := c.M
 	var reff uint64
